@@ -283,6 +283,11 @@ pub enum BOp {
     ExtraRemoveTarget,
     ExtraInsertTarget,
     ExtraReplaceAnimator(usize),
+    /// Assign the public `timeline_position` directly ("seek"; documented: it does not change the
+    /// state). `eighths_of_total`: position = total x n/8 (n may exceed 8; for an infinite timeline
+    /// the total of one cycle plus the delay is used); `astronomical`: 1 = `Duration::MAX`,
+    /// 2 = one nanosecond less, 3 = 50 ms less, 4 = 1e15 s.
+    Seek { eighths_of_total: u32, astronomical: u8 },
     /// Remove the `AnimationSelector` component (the chain component stays): whatever animation
     /// it started keeps running. A later `InsertSelector` attaches a fresh one.
     RemoveSelector,
@@ -310,9 +315,9 @@ pub struct BScn {
     pub frames: Vec<Frame>,
 }
 
-pub const FAULTS: [&str; 13] = [
+pub const FAULTS: [&str; 14] = [
     "none", "jitter", "zero_frame", "hitch", "suspend", "land_on_boundary", "event_burst",
-    "duplicate_event", "event_after_end", "toggle_enabled", "reset", "retarget", "app_clock",
+    "duplicate_event", "event_after_end", "toggle_enabled", "reset", "retarget", "app_clock", "seek",
 ];
 
 pub fn fault_static(s: &str) -> &'static str {
@@ -446,6 +451,9 @@ pub fn scn_to_json(s: &BScn) -> Json {
                         .set("start_with_component", *start_with),
                     BOp::InsertSelector => Json::obj().set("insert_selector", true),
                     BOp::RemoveSelector => Json::obj().set("remove_selector", true),
+                    BOp::Seek { eighths_of_total, astronomical } => Json::obj()
+                        .set("seek_to_eighths_of_total", *eighths_of_total)
+                        .set("astronomical", *astronomical),
                     BOp::ExtraRemoveTarget => Json::obj().set("extra_entity_remove_component", true),
                     BOp::ExtraInsertTarget => Json::obj().set("extra_entity_insert_component", true),
                     BOp::ExtraReplaceAnimator(tl) => Json::obj().set("extra_entity_replace_animator", *tl),
@@ -601,6 +609,11 @@ pub fn scn_from_json(j: &Json) -> Result<BScn, String> {
                     ops.push(BOp::InsertSelector);
                 } else if op.get("remove_selector").is_some() {
                     ops.push(BOp::RemoveSelector);
+                } else if let Some(n) = op.get("seek_to_eighths_of_total") {
+                    ops.push(BOp::Seek {
+                        eighths_of_total: n.as_i64()? as u32,
+                        astronomical: op.req("astronomical")?.as_i64()? as u8,
+                    });
                 } else if op.get("extra_entity_remove_component").is_some() {
                     ops.push(BOp::ExtraRemoveTarget);
                 } else if op.get("extra_entity_insert_component").is_some() {
